@@ -985,3 +985,67 @@ def loop_progressions(fn: FuncInfo) -> dict:
             if p is not None:
                 out[tg.id] = p
     return out
+
+
+# ---------------------------------------------------------------------------------------------------------------
+def order_truth_table(test: ast.AST, var: str, landmarks: List[str]) -> Optional[Dict[str, bool]]:
+    """Truth value of a test that touches `var` ONLY through comparisons with the landmarks (texts, assumed to be in strictly ascending
+    order, e.g. ['0', 'fft_size']), for each of the 2k+1 order positions of var: 'below <L0>', 'at <L0>', 'between <L0> and <L1>', 'at <L1>',
+    'above <L1>' ...  A value the test only looks at through such comparisons has no other property the test could depend on, so the table
+    decides the test for EVERY value.  None when the test contains anything else (cannot tell)."""
+    from .model import norm
+    k = len(landmarks)
+    rank = {norm(ast.parse(l, mode='eval').body): 2 * (i + 1) for i, l in enumerate(landmarks)}
+    names = []
+    for i, l in enumerate(landmarks):
+        if i == 0:
+            names.append('below %s' % l)
+        names.append('at %s' % l)
+        names.append('between %s and %s' % (l, landmarks[i + 1]) if i + 1 < k else 'above %s' % l)
+
+    class Unknown_(Exception):
+        pass
+
+    def val(e, r):
+        s = norm(e)
+        if s == var:
+            return r
+        if s in rank:
+            return rank[s]
+        raise Unknown_(s)
+
+    def ev(e, r) -> bool:
+        if isinstance(e, ast.BoolOp):
+            vs = [ev(v, r) for v in e.values]
+            return all(vs) if isinstance(e.op, ast.And) else any(vs)
+        if isinstance(e, ast.UnaryOp) and isinstance(e.op, ast.Not):
+            return not ev(e.operand, r)
+        if isinstance(e, ast.Compare):
+            items = [e.left] + list(e.comparators)
+            out = True
+            for a, op, b in zip(items, e.ops, items[1:]):
+                x, y = val(a, r), val(b, r)
+                if isinstance(op, ast.Lt):
+                    c = x < y
+                elif isinstance(op, ast.LtE):
+                    c = x <= y
+                elif isinstance(op, ast.Gt):
+                    c = x > y
+                elif isinstance(op, ast.GtE):
+                    c = x >= y
+                elif isinstance(op, ast.Eq):
+                    c = x == y
+                elif isinstance(op, ast.NotEq):
+                    c = x != y
+                else:
+                    raise Unknown_(type(op).__name__)
+                out = out and c
+            return out
+        raise Unknown_(type(e).__name__)
+    table: Dict[str, bool] = {}
+    try:
+        for r in range(1, 2 * k + 2):
+            table[names[r - 1]] = ev(test, r)
+    except Unknown_:
+        return None
+    return table
